@@ -82,7 +82,28 @@ def run(chk):
         if isinstance(n, ast.Call) and isinstance(n.func, ast.Attribute) and n.func.attr == 'to_bytes' and len(n.args) >= 2:
             if isinstance(n.args[0], ast.Constant) and isinstance(n.args[1], ast.Constant):
                 tb.append((n.args[0].value, n.args[1].value, n.lineno))
-    if [(a, b) for a, b, _ in tb] == [(1, 'big'), (2, 'big')]:
+    def struct_layout(fn, which):
+        """[(width, 'big'|'little', signed)] of a struct.pack / struct.unpack call in fn, else None"""
+        for c in ast.walk(fn):
+            if isinstance(c, ast.Call) and isinstance(c.func, ast.Attribute) and c.func.attr == which and ast.unparse(c.func.value) == 'struct' and c.args \
+                    and isinstance(c.args[0], ast.Constant) and isinstance(c.args[0].value, str):
+                fmt = c.args[0].value
+                order = 'big' if fmt[:1] in ('>', '!') else ('little' if fmt[:1] == '<' else 'native')
+                codes = fmt[1:] if fmt[:1] in '<>!=@' else fmt
+                widths = {'B': (1, False), 'b': (1, True), 'H': (2, False), 'h': (2, True), 'I': (4, False), 'i': (4, True), 'L': (4, False), 'l': (4, True), 'Q': (8, False), 'q': (8, True)}
+                if all(ch in widths for ch in codes):
+                    return [(widths[ch][0], order, widths[ch][1]) for ch in codes], c
+        return None
+    WANT = [(1, 'big', False), (2, 'big', False)]
+    sp = struct_layout(meth['send_msg'], 'pack')
+    su = struct_layout(meth['recv_msg'], 'unpack')
+    if sp is not None:
+        if sp[0] == WANT:
+            chk.ok('C25-R1', 'py-send-layout', sample='send_msg: struct.pack(%r, ..)' % sp[1].args[0].value)
+        else:
+            chk.bad('C25-R1', 'repl_server.MessageStream.send_msg', 'layout', 'the header is packed as %s (width, byte order, signed); the Rust side reads u8 + big-endian u16' % sp[0],
+                    PY, sp[1].lineno)
+    elif [(a, b) for a, b, _ in tb] == [(1, 'big'), (2, 'big')]:
         chk.ok('C25-R1', 'py-send-layout', sample="send_msg: inst.to_bytes(1,'big') + len.to_bytes(2,'big') + data")
     else:
         chk.bad('C25-R1', 'repl_server.MessageStream.send_msg', 'layout', 'header written as %s' % [(a, b) for a, b, _ in tb], PY, meth['send_msg'].lineno)
@@ -94,7 +115,14 @@ def run(chk):
                 lo = sl.slice.lower.value if isinstance(sl.slice.lower, ast.Constant) else 0
                 hi = sl.slice.upper.value if isinstance(sl.slice.upper, ast.Constant) else None
                 fb.append((lo, hi, n.args[1].value))
-    if fb == [(0, 1, 'big'), (1, 3, 'big')]:
+    if su is not None:
+        if su[0] == WANT:
+            chk.ok('C25-R1', 'py-recv-layout', sample='recv_msg: struct.unpack(%r, ..)' % su[1].args[0].value)
+        else:
+            chk.bad('C25-R1', 'repl_server.MessageStream.recv_msg', 'layout', 'the header is unpacked as %s (width, byte order, signed); the Rust side writes u8 + big-endian u16: '
+                    '%s' % (su[0], 'a size of 32768 or more reads as negative and the payload is taken for new frames' if any(sg for _, _, sg in su[0]) else 'the fields do not line up'),
+                    PY, su[1].lineno)
+    elif fb == [(0, 1, 'big'), (1, 3, 'big')]:
         chk.ok('C25-R1', 'py-recv-layout', sample="recv_msg: int.from_bytes(buf[:1],'big'), int.from_bytes(buf[1:3],'big')")
     else:
         chk.bad('C25-R1', 'repl_server.MessageStream.recv_msg', 'layout', 'header read as %s' % fb, PY, meth['recv_msg'].lineno)
@@ -192,6 +220,22 @@ def run(chk):
     for n in ast.walk(meth['send_msg']):
         if isinstance(n, (ast.If, ast.Assert, ast.While)) and ('65535' in ast.unparse(n.test) or '0xffff' in ast.unparse(n.test).lower() or '1 << 16' in ast.unparse(n.test)):
             guarded = True
+    if sp is not None and len(sp[1].args) >= 3:
+        length_expr = resolve(sp[1].args[2])
+        payload = None
+        for c in ast.walk(meth['send_msg']):
+            if isinstance(c, ast.Call) and isinstance(c.func, ast.Attribute) and c.func.attr in ('send', 'sendall') and c.args:
+                e = resolve(c.args[0])
+                if isinstance(e, ast.BinOp) and isinstance(e.op, ast.Add):
+                    payload = e.right
+        okp = payload is not None and isinstance(length_expr, ast.Call) and isinstance(length_expr.func, ast.Name) and length_expr.func.id == 'len' and length_expr.args and \
+            ast.dump(resolve(length_expr.args[0])) == ast.dump(resolve(payload))
+        if okp:
+            chk.ok('C25-R3', 'py-size-is-len-of-payload', sample='send_msg: size = len(%s)' % ast.unparse(length_expr.args[0]))
+        else:
+            chk.bad('C25-R3', 'repl_server.MessageStream.send_msg', 'size!=len(payload)', 'send_msg packs the size field from `%s` but the payload written is `%s`'
+                    % (ast.unparse(length_expr), ast.unparse(resolve(payload)) if payload is not None else '?'), PY, sp[1].lineno)
+        tb = tb + [(w, o, sp[1].lineno) for (w, o, sg) in sp[0]]
     width2 = [t for t in tb if t[0] == 2]
     if width2 and not guarded:
         chk.bad('C25-R3', 'repl_server.MessageStream.send_msg', 'to_bytes(2)', 'send_msg encodes len(data) with to_bytes(2, ..) without bounding it: an output over 65535 bytes raises OverflowError '
